@@ -5,7 +5,7 @@
  R3  the writing operator[] creates missing intermediates as objects and errors on a non-object intermediate
  R4  merge recurses only when both sides are objects, otherwise the right-hand value is assigned
 """
-from vlib.facts import kids, strip, walk, is_call, call_args, call_object, callee, render, literal
+from vlib.facts import noid, kids, strip, walk, is_call, call_args, call_object, callee, render, literal
 from vlib.cfg import write_target
 from vlib.work import AnalysisBroken
 
@@ -21,6 +21,7 @@ def run(ctx):
     R.rule("C25-R2", "read-side walkers are const and look children up with find()", floor=8)
     R.rule("C25-R3", "writing operator[] creates intermediates as objects, errors on non-object intermediates", floor=3)
     R.rule("C25-R4", "merge: recurse iff both are objects, else right-hand side wins", floor=3)
+    R.rule("C25-R5", "walkers descend only into objects: every children-map access through the walking pointer is guarded by type == object_ on that pointer", floor=10)
 
     walkers = {
         "has": prog.fn(J + "has"),
@@ -110,11 +111,32 @@ def run(ctx):
         ok = ok and any(dn["k"] == "VarDecl" and kids(dn) and "second" in render(kids(dn)[0], False) for dn in defs)
         R.ob("C25-R4", ok, m.q, "merge:assign right value", m.site(n), "non-recursive case stores the right-hand side's value")
     R.ob("C25-R4", len(asg) == 2, m.q, "merge:assign arms", "%s:%d" % (m.relfile, m.d["line"]), "%d assignment arms (object-over-non-object, and plain)" % len(asg))
+    # ---- R5: a primitive assignment changes `type` but keeps the old children map (jsonValue_t is a plain struct), so the map may only be
+    #          consulted where the node is known to be an object -------------------------------------------------------------------------
+    for f in prog.funcs.values():
+        if f.d.get("tmpl") == "inst" or not f.q.startswith("occa::json::") or not f.d["file"].endswith("src/types/json.cpp"):
+            continue
+        cfg = IN = None
+        for n in f.walk():
+            if not (n["k"] == "MemberExpr" and n.get("n", "").endswith("(anonymous struct)::object")):
+                continue
+            v = strip(kids(n)[0]) if kids(n) else None
+            base = strip(kids(v)[0]) if v is not None and v["k"] == "MemberExpr" and kids(v) else None
+            if base is None or base["k"] != "DeclRefExpr" or not base.get("loc") or base.get("d") in [p["d"] for p in f.d["params"]]:
+                continue      # this->value_ / parameter: typed by the caller's contract (covered by R3/R4 and the dump switch)
+            if cfg is None:
+                cfg = f.cfg
+                IN = cfg.facts_in()
+            want = "(%s->type==occa::json::object_)" % base["n"]
+            ok = any(pol and noid(k).replace(" ", "") == want for (k, pol) in cfg.facts_at(n, IN))
+            R.ob("C25-R5", ok, f.q, "children of *%s read only when %s is an object" % (base["n"], base["n"]), f.site(n),
+                 "guarded by the type test on the same pointer" if ok else
+                 "the children map of a node is consulted without knowing it is an object: after `j[\"a/b/c\"] = 1; j[\"a/b\"] = 7;` the leaf a/b still owns its old children, so the path a/b/c is reported although a/b is a number")
 
 
 META = {
     "technique": "sibling agreement over resolved call arguments of the five path walkers; purity facts (constness, const_cast, std::map::operator[] vs find) and guard dominance on the writer and the merge",
     "level": "Static decision that all path accessors tokenise a path identically, that has()/get()/const operator[] cannot create entries (const, find-only, no member writes), that the writing operator[] "
-             "creates intermediates as objects behind an is-object guard, and that += merges recursively exactly when both sides are objects with the right-hand side winning otherwise. Holds for every path and history.",
+             "creates intermediates as objects behind an is-object guard, that every walker consults a node's children map only under a type == object_ test on that node (a leaf's stale children are never visible), and that += merges recursively exactly when both sides are objects with the right-hand side winning otherwise. Holds for every path and history.",
     "note": "Does not decide the nested-dictionary model equality itself (value-level over histories); sizes and array indexing are not covered.",
 }
